@@ -470,7 +470,7 @@ func checkPanicContainment(p *Program, r *Report) {
 		{"(*meta.Data).ICCProfile", p.Method("meta", "Data", "ICCProfile")},
 		{"(*icc.Profile).Description", p.Method("meta/icc", "Profile", "Description")},
 	}
-	unprot := map[*ssa.Function]string{} // function -> entry that reaches it unprotected
+	unprot := map[*ssa.Function]string{}               // function -> entry that reaches it unprotected
 	reachedFrom := map[*ssa.Function][]*ssa.Function{} // function -> entries that reach it unprotected
 	for _, en := range entries {
 		if en.fn == nil {
